@@ -973,3 +973,73 @@ def r_no_process_state(ctx, repo):
             rule.ok(f.loc(), '%s: no interpreter-wide setting touched' % f.qualname)
     rule.require_min(200, 'functions')
     return rule
+
+
+# --------------------------------------------------------------------------------------------- R-TIMESTAMP-INT-FIELDS
+def r_timestamp_int_fields(ctx, repo):
+    """type-level abstract interpretation of construct_yaml_timestamp: every field handed to datetime.date / datetime.datetime /
+    datetime.timedelta is an int on every path (an int() result, an int constant, or +,-,* of such; `/` and `**` can
+    leave the integers)."""
+    rule = ctx.rule('R-TIMESTAMP-INT-FIELDS', 'every positional field construct_yaml_timestamp passes to datetime.date / datetime.datetime '
+                                              'is int-typed on every path (no true division, no power with a possibly negative '
+                                              'exponent): otherwise a resolver-typed timestamp raises TypeError')
+    f = _method(repo, 'constructor.SafeConstructor', 'construct_yaml_timestamp')
+    cfg = CFG(f.node)
+
+    def is_int(e, at, depth=0):
+        if depth > 8:
+            return False
+        if isinstance(e, ast.Constant):
+            return isinstance(e.value, int) and not isinstance(e.value, bool)
+        if isinstance(e, ast.Call) and norm(e.func) in ('int', 'len', 'ord', 'round') and (norm(e.func) != 'round' or len(e.args) == 1):
+            return True
+        if isinstance(e, ast.UnaryOp) and isinstance(e.op, (ast.USub, ast.UAdd)):
+            return is_int(e.operand, at, depth + 1)
+        if isinstance(e, ast.BinOp):
+            if isinstance(e.op, (ast.Add, ast.Sub, ast.Mult, ast.FloorDiv, ast.Mod)):
+                return is_int(e.left, at, depth + 1) and is_int(e.right, at, depth + 1)
+            if isinstance(e.op, ast.Pow):
+                # int ** non-negative int constant stays int
+                return is_int(e.left, at, depth + 1) and isinstance(e.right, ast.Constant) and isinstance(e.right.value, int) \
+                    and e.right.value >= 0
+            return False
+        if isinstance(e, ast.IfExp):
+            return is_int(e.body, at, depth + 1) and is_int(e.orelse, at, depth + 1)
+        if isinstance(e, ast.BoolOp) and isinstance(e.op, ast.Or):
+            return all(is_int(v, at, depth + 1) or (isinstance(v, ast.Subscript)) for v in e.values) and is_int(e.values[-1], at, depth + 1)
+        if isinstance(e, ast.Name):
+            rd = reaching_defs(cfg, e.id)
+            defs = set()
+            for n in at:
+                defs |= rd.get(n, set())
+            if not defs:
+                return False
+            for d in defs:
+                a = d.ast
+                if isinstance(a, ast.Assign) and len(a.targets) == 1 and isinstance(a.targets[0], ast.Name):
+                    if not is_int(a.value, [d], depth + 1):
+                        return False
+                elif isinstance(a, ast.AugAssign) and isinstance(a.op, (ast.Add, ast.Sub, ast.Mult, ast.FloorDiv)):
+                    if not is_int(a.value, [d], depth + 1):
+                        return False
+                else:
+                    return False
+            return True
+        return False
+    n = 0
+    for c in A.func_calls(f.node):
+        fn = norm(c.func)
+        if fn in ('datetime.date', 'datetime.datetime'):
+            stn = A.enclosing_stmt(c)
+            at = cfg.nodes_of(stn) or [x for x in cfg.nodes if x.ast is not None and any(y is c for y in own_exprs(x))]
+            for i, a in enumerate(c.args):
+                n += 1
+                if is_int(a, at):
+                    rule.ok(f.loc(c), '%s argument %d is int-typed' % (fn, i + 1))
+                else:
+                    rule.fail('%s|int-field|%s|%d' % (f.qualname, fn, i + 1), f.module.rel, c.lineno, f.qualname, norm(a)[:60],
+                              'argument %d of %s (%s) is not an int on every path (a division or a power with a variable exponent '
+                              'can yield a float): a plain scalar that the resolver types as !!timestamp makes the constructor '
+                              'raise TypeError' % (i + 1, fn, norm(a)[:40]))
+    rule.require_min(5, 'date/time fields')
+    return rule
